@@ -634,6 +634,17 @@ func (g *dgen) secure(svc *spec.Service, m *spec.Method, path *string) {
 		pt.Fields = append(pt.Fields, a)
 		return a
 	}
+	authTaken := func() bool {
+		if hasBasic {
+			return true
+		}
+		for _, h := range m.Headers {
+			if h == "Authorization" {
+				return true
+			}
+		}
+		return false
+	}
 	for _, r := range reqs {
 		for _, sn := range r.Schemes {
 			if used[sn] {
@@ -656,7 +667,7 @@ func (g *dgen) secure(svc *spec.Service, m *spec.Method, path *string) {
 					m.Headers[a.Name] = "X-API-Key"
 					g.feat("security:apikey-header")
 				default:
-					if hasBasic {
+					if authTaken() {
 						m.Headers[a.Name] = "X-API-Key"
 					} else {
 						m.Headers[a.Name] = "Authorization"
@@ -669,12 +680,7 @@ func (g *dgen) secure(svc *spec.Service, m *spec.Method, path *string) {
 					sec, nm = "accesstoken", "access_token"
 				}
 				a := add(nm, sec, req)
-				authFree := !hasBasic
-				for _, h := range m.Headers {
-					if h == "Authorization" {
-						authFree = false
-					}
-				}
+				authFree := !authTaken()
 				switch t.Draw("token-in", 3) {
 				case 0:
 					if authFree {
